@@ -529,3 +529,20 @@ RULES = [
     ("C01.R5", r5_boundary_tie, 4, "unbroken boundary tie => ValueError; loop stops at the first index reaching m; resolution returned"),
     ("C01.R6", r6_bookkeeping, 12, "candidates removed from the profile = candidates recorded as elected/eliminated"),
 ]
+
+
+def sweep(prog):
+    """Thorough tier: predicate-refined definite assignment over EVERY function of the package."""
+    out = []
+    n = 0
+    for f in prog.iter_functions():
+        if isinstance(f.node, ast.Lambda) or f.module.path.startswith(elect.SCOPE_ELECTION):
+            continue
+        n += 1
+        try:
+            for fd in da.DA(f.node).run():
+                out.append(f"possibly unbound local '{fd.name}' at {f.loc(fd.node)} (outside the election scope; informational)")
+        except NotImplementedError:
+            pass
+    out.append(f"definite assignment swept over {n} further functions outside the election scope")
+    return out
